@@ -6,6 +6,7 @@ reading; the ∀-history statements follow by induction over the event list (`c0
 -/
 import Drand.DKG.Process
 import Gen.Locks
+import Gen.DKGAuth
 
 namespace Drand.DKG
 open Drand
@@ -38,6 +39,15 @@ the process mutex, taken by `Command` and by `Packet` before they touch any stat
 return. With a narrower critical section a packet served between a command's read and its write would be overwritten
 by a transition computed from the stale copy, and the ∀-history theorems would not speak about the code. -/
 theorem tie_process_steps_atomic : Gen.processCommandAtomic = true ∧ Gen.processPacketAtomic = true := by decide
+
+/-- `validateEpoch` as the model has it (three guards, in this order): a lower epoch is refused whatever the state, an equal
+one unless the last attempt ended Aborted / TimedOut / Failed, a jump of more than one unless the node is Left or Fresh -/
+theorem tie_validate_epoch :
+    Gen.DKGAuth.validateEpochChain =
+      ["if terms.Epoch<currentState.Epoch → ErrInvalidEpoch",
+       "if terms.Epoch==currentState.Epoch&&currentState.State!=Aborted&&currentState.State!=TimedOut&&currentState.State!=Failed → ErrInvalidEpoch",
+       "if terms.Epoch>currentState.Epoch+1&&(currentState.State!=Left&&currentState.State!=Fresh) → ErrInvalidEpoch",
+       "return nil"] := rfl
 
 /-! ### proof infrastructure: the `Except` plumbing, what each validator and each `DBState` method guarantees -/
 
@@ -112,9 +122,9 @@ private structure ForAll (cur : DBState) (t : Terms) (now : Int) : Prop where
   epoch : validateEpoch cur t = .ok ()
 
 private theorem validateForAllDKGs_ok {cur t now u} (h : validateForAllDKGs cur t now = .ok u) : ForAll cur t now := by
-  unfold validateForAllDKGs at h
+  unfold validateForAllDKGs validateForAllDKGsV at h
   exc at h
-  obtain ⟨h1, h2, h3, h4, h5, h6, h7⟩ := h
+  obtain ⟨h1, h2, h3, _, h4, h5, h6, h7⟩ := h
   exact ⟨by simpa using h1, by simpa using h2, by simpa using h3, h4, h5, h6, h7⟩
 
 
@@ -728,6 +738,53 @@ theorem c08_epoch_monotone_partial (p : Proc) (now : Int) (ev : Ev) (h : EpochIn
     · exact Nat.le_refl _
     · rename_i n hn
       exact (failed_good hn).epochLe
+
+/-- … and for a node that has LEFT the network (state Left at epoch E — not one of the terminal states, so no fallback to the
+last completed record): the exemption "a leftover state may skip epochs" is one-directional. A proposal that changes its
+record has an epoch strictly above E, whoever sends it and whatever role it gives the node. (Finding 14 below is about the
+terminal-state fallback of a node WITHOUT a completed epoch; this is the other case.) -/
+theorem c08_left_epoch_increases (p : Proc) (now : Int) (m : Meta) (t : Terms) (hl : p.getCurrent.state = .left)
+    (hch : (p.packet m (.proposal t) now).1 ≠ p) :
+    p.getCurrent.epoch < (p.packet m (.proposal t) now).1.getCurrent.epoch := by
+  have hc : ¬ Gen.terminalStates.contains p.getCurrent.state = true := by rw [hl]; decide
+  have hb : p.base = p.getCurrent := by simp only [Proc.base]; rw [if_neg hc]
+  rcases packet_cases p m (.proposal t) now with h' | ⟨n, -, ha, -, hcur, -, -⟩
+  · exact absurd h' hch
+  · simp only [applyPacket] at ha
+    rw [hb] at ha
+    unfold DBState.proposed at ha
+    exc at ha
+    obtain ⟨-, -, _, hv, -, rfl⟩ := ha
+    obtain ⟨h1, h2⟩ := validateProposal_epoch hv
+    simp only [Proc.getCurrent, hcur, Option.getD_some, stateFromTerms]
+    have hne : t.epoch ≠ (p.current.getD (newFreshState p.beaconID)).epoch := by
+      intro he
+      have hs : p.getCurrent.state = .aborted ∨ p.getCurrent.state = .timedOut ∨ p.getCurrent.state = .failed := h2 he
+      rw [hl] at hs
+      rcases hs with a | a | a <;> cases a
+    have h1' : (p.current.getD (newFreshState p.beaconID)).epoch ≤ t.epoch := h1
+    omega
+
+def leftWitnessL : Participant := { addr := "l", key := [2], sig := [2], scheme := "pedersen-bls-chained" }
+def leftWitnessMe : Participant := { addr := "x", key := [1], sig := [1], scheme := "pedersen-bls-chained" }
+def leftWitnessState : DBState :=
+  { beaconID := "default", epoch := 5, state := .left, threshold := 1, timeout := 100, schemeID := "pedersen-bls-chained",
+    genesisTime := 5, genesisSeed := [9], leader := some leftWitnessL, remaining := [leftWitnessL], leaving := [leftWitnessMe] }
+def leftWitnessTerms (e : Nat) : Terms :=
+  { beaconID := "default", epoch := e, threshold := 2, timeout := 100, schemeID := "pedersen-bls-chained", genesisTime := 5,
+    genesisSeed := [9], catchupSec := 1, periodSec := 3, leader := leftWitnessL, joining := [leftWitnessMe],
+    remaining := [leftWitnessL], leaving := [] }
+def leftWitnessSig (e : Nat) : Meta :=
+  { beaconID := "default", addr := "l", sigId := "0011223344", sigKey := leftWitnessL.key,
+    sigMsg := messageForSigning "default" (.proposal (leftWitnessTerms e)) (leftWitnessTerms e) }
+
+/-- non-vacuity: a node in Left at epoch 5 takes the epoch-6 proposal (and, by the theorem, nothing at or below 5) -/
+example :
+    let p : Proc := { beaconID := "default", me := leftWitnessMe, current := some leftWitnessState }
+    ((p.packet (leftWitnessSig 6) (.proposal (leftWitnessTerms 6)) 0).1.getCurrent.epoch = 6) ∧
+    ((p.packet (leftWitnessSig 3) (.proposal (leftWitnessTerms 3)) 0).1.getCurrent.epoch = 5) ∧
+    ((p.packet (leftWitnessSig 5) (.proposal (leftWitnessTerms 5)) 0).1.getCurrent.epoch = 5) := by
+  decide
 
 /-
 The unrestricted statement "current.epoch never decreases" does NOT hold for the code as it is: a node without any
